@@ -474,3 +474,39 @@ func Verif_C01_own_links_survive_updates_that_omit_them() {
 	verifapi.Quiesce()
 	verifapi.Assert("neighbour-routed-directly-at-the-link-cost", verifapi.All(s.routingTable["X"] == "X", s.routingPathCosts["X"] == cost))
 }
+
+// Verif_C01_redundant_session_keeps_the_link: A and X are connected and converged. A second session
+// from X is offered (both ends dialled, or X reconnected through another listener) and is refused as a
+// duplicate; the pending requests are served. The established link is untouched: A still counts X as
+// a connection, keeps the link in its own adjacency and routes to X directly.
+func Verif_C01_redundant_session_keeps_the_link() {
+	verifapi.SelectFork(false)
+	n := verifNetceptor("A")
+	s := n.s
+	n.verifConn("X", 1)
+	s.knownConnectionCosts["A"] = map[string]float64{"X": 1}
+	s.knownConnectionCosts["X"] = map[string]float64{"A": 1}
+	s.knownNodeInfo["X"] = &nodeInfo{Epoch: 5, Sequence: 1}
+	s.updateRoutingTable()
+	verifapi.Quiesce()
+	allowed := verifapi.Bool()
+	bi := &BackendInfo{connectionCost: 1}
+	if !allowed {
+		bi.allowedPeers = []string{"somebody-else"} // a second backend whose allow-list excludes X
+	}
+	hs := &routingUpdate{NodeID: "X", UpdateID: "again", UpdateEpoch: 5, UpdateSequence: 2, Connections: map[string]float64{"A": 1}, ForwardingNode: "X"}
+	r := verifStartProtocol(n, [][]byte{append([]byte{MsgTypeRoute}, verifapi.JSON(hs)...)}, bi)
+	verifapi.Quiesce()
+	if len(*n.tableReqs) > 0 {
+		*n.tableReqs = nil
+		s.updateRoutingTable()
+	}
+	verifapi.Quiesce()
+	verifapi.Cover("second-session-handled")
+	verifapi.Assert("second-session-refused", verifRejected(*r.sess.sent))
+	_, up := s.connections["X"]
+	_, own := s.knownConnectionCosts["A"]["X"]
+	verifapi.Assert("established-link-untouched", verifapi.All(up, own, s.routingTable["X"] == "X", s.routingPathCosts["X"] == 1))
+	close(r.sess.gate)
+	verifapi.Quiesce()
+}
